@@ -32,12 +32,16 @@ import (
 
 func mscGenesis(v int) ([]byte, error) {
 	extra := make([]byte, 32)
-	for i := 0; i < 3+v; i++ {
+	nSigners := 3 + v
+	if unusual(v) {
+		nSigners = 1
+	}
+	for i := 0; i < nSigners; i++ {
 		a := h32("mscsigner", 10*v+i)
 		extra = append(extra, a[:20]...)
 	}
 	extra = append(extra, make([]byte, 65)...)
-	return ethHeaderJSON(v, extra) // Number 1000 / 1200, a multiple of the epoch below
+	return ethHeaderJSONAt(v, extra, heightFor(v, 1000, 1200, 200*(1<<50))) // a multiple of the epoch below
 }
 
 func mscExtra() []byte {
@@ -52,7 +56,7 @@ func neoGenesis(v int) ([]byte, error) {
 	nc := h32("neonext", v)
 	next, _ := neohelper.UInt160FromBytes(nc[:20])
 	h := &neo.NeoBlockHeader{BlockHeader: &neoblock.BlockHeader{Version: 0, PrevHash: prev, MerkleRoot: root, Timestamp: uint32(1468595301 + v),
-		Index: uint32(100 * v), NextConsensus: next, ConsensusData: uint64(2083236893 + v),
+		Index: uint32(heightFor(v, 0, 100, 0xffffffff)), NextConsensus: next, ConsensusData: uint64(2083236893 + v),
 		Witness: &neotx.Witness{InvocationScript: []byte{0}, VerificationScript: []byte{81}}}}
 	sink := common.NewZeroCopySink(nil)
 	if err := h.Serialization(sink); err != nil {
@@ -72,7 +76,7 @@ func neo3Genesis(v int) ([]byte, error) {
 	g.SetPrevHash(prev)
 	g.SetMerkleRoot(root)
 	g.SetTimeStamp(uint64(1468595301000 + v))
-	g.SetIndex(uint32(100 * v))
+	g.SetIndex(uint32(heightFor(v, 0, 100, 0xffffffff)))
 	g.SetPrimaryIndex(0)
 	g.SetNextConsensus(next)
 	g.SetWitnesses([]neo3tx.Witness{{InvocationScript: []byte{}, VerificationScript: []byte{}}})
@@ -95,7 +99,7 @@ func neo3legacyGenesis(v int) ([]byte, error) {
 	g.SetPrevHash(prev)
 	g.SetMerkleRoot(root)
 	g.SetTimeStamp(uint64(1468595301000 + v))
-	g.SetIndex(uint32(100 * v))
+	g.SetIndex(uint32(heightFor(v, 0, 100, 0xffffffff)))
 	g.SetPrimaryIndex(0)
 	g.SetNextConsensus(next)
 	g.SetWitnesses([]neo3ltx.Witness{{InvocationScript: []byte{}, VerificationScript: []byte{}}})
@@ -110,8 +114,8 @@ func neo3legacyGenesis(v int) ([]byte, error) {
 func okexGenesis(v int) ([]byte, error) {
 	hv := h32("okexvals", v)
 	hd := okex.CosmosHeader{
-		Header: tmtypes.Header{ChainID: "polyverif-okex", Height: int64(100 + 50*v), Time: time.Unix(int64(1600000000+v), 0).UTC(),
-			NextValidatorsHash: hv[:], ValidatorsHash: hv[:]},
+		Header: tmtypes.Header{ChainID: map[bool]string{false: "polyverif-okex", true: tmChainIDLong}[unusual(v)], Height: heightFor(v, 100, 150, 1<<62), Time: time.Unix(int64(1600000000+v), 0).UTC(),
+			NextValidatorsHash: hv[:map[bool]int{false: 32, true: 5}[unusual(v)]], ValidatorsHash: hv[:]},
 		Commit:  &tmtypes.Commit{},
 		Valsets: []*tmtypes.Validator{},
 	}
@@ -121,8 +125,8 @@ func okexGenesis(v int) ([]byte, error) {
 func heimdallGenesis(v int) ([]byte, error) {
 	hv := h32("heimdallvals", v)
 	hd := polygon.CosmosHeader{
-		Header: polygonTypes.Header{ChainID: "polyverif-heimdall", Height: int64(100 + 50*v), Time: time.Unix(int64(1600000000+v), 0).UTC(),
-			NextValidatorsHash: hv[:], ValidatorsHash: hv[:]},
+		Header: polygonTypes.Header{ChainID: map[bool]string{false: "polyverif-heimdall", true: tmChainIDLong}[unusual(v)], Height: heightFor(v, 100, 150, 1<<62), Time: time.Unix(int64(1600000000+v), 0).UTC(),
+			NextValidatorsHash: hv[:map[bool]int{false: 32, true: 5}[unusual(v)]], ValidatorsHash: hv[:]},
 		Commit:  &polygonTypes.Commit{},
 		Valsets: []*polygonTypes.Validator{},
 	}
@@ -154,7 +158,12 @@ func zilParts(v int) (*core.TxBlock, *core.DsBlock, []core.PairOfNode, error) {
 	if err := json.Unmarshal([]byte(zilDsBlockJSON), &ds); err != nil {
 		return nil, nil, nil, err
 	}
-	if v > 0 {
+	if v == 2 {
+		tx.BlockHeader.BlockNum = 0
+		tx.BlockHeader.DSBlockNum = 1
+		tx.BlockHash = h32("ziltx", v)
+		ds.BlockHash = h32("zilds", v)
+	} else if v > 0 {
 		tx.BlockHeader.BlockNum += uint64(100 * v)
 		tx.BlockHeader.DSBlockNum += uint64(v)
 		tx.BlockHash = h32("ziltx", v)
@@ -163,7 +172,9 @@ func zilParts(v int) (*core.TxBlock, *core.DsBlock, []core.PairOfNode, error) {
 	}
 	comm := []core.PairOfNode{{PubKey: "02105342331FCD7CA95648DF8C5373C596982544F35E90849B1E619DFC59F03D48"},
 		{PubKey: "021D439D1CCCAE17C3D6E855BC78E96438C808D16D1CBF8D7ABD391E41CEE9B1BF"}}
-	if v > 0 {
+	if unusual(v) {
+		comm = nil
+	} else if v > 0 {
 		comm = append(comm, core.PairOfNode{PubKey: "021EDDE95598F5F59708D2E728E00EDB2ECF278C16BD389384320B1AF998DCC2FD"})
 	}
 	return &tx, &ds, comm, nil
